@@ -444,7 +444,7 @@ func (w *World) addFact(out map[string]bool, f *ssa.Function, cond ssa.Value, va
 		if x.Op == token.EQL || x.Op == token.NEQ {
 			for _, side := range [][2]ssa.Value{{x.X, x.Y}, {x.Y, x.X}} {
 				if c, ok := side[0].(*ssa.Call); ok && (w.calleeName(c) == "(*Decimal).Sign") {
-					if k, ok := side[1].(*ssa.Const); ok && k.Int64() == 0 {
+					if k, ok := side[1].(*ssa.Const); ok && ci(k) == 0 {
 						if p, ok := c.Common().Args[0].(*ssa.Parameter); ok {
 							out["IsZero("+p.Name()+")="+tv(val == (x.Op == token.EQL))] = true
 						}
